@@ -87,12 +87,18 @@ func (ucr *UnsignedChunkReader) Read(p []byte) (int, error) {
 			// Stop reading parsing payloads as 0 sized chunk is reached
 			break
 		}
+		if chunkSize < 0 {
+			return 0, errMalformedEncoding
+		}
 		rdr := io.TeeReader(ucr.reader, ucr.hasher)
-		payload := make([]byte, chunkSize)
-		// Read and cache the payload
-		_, err = io.ReadFull(rdr, payload)
+		// Read and cache the payload. Nothing is allocated from the
+		// declared size: the buffer grows with the data received
+		payload, err := io.ReadAll(io.LimitReader(rdr, chunkSize))
 		if err != nil {
 			return 0, err
+		}
+		if int64(len(payload)) < chunkSize {
+			return 0, io.ErrUnexpectedEOF
 		}
 
 		// Skip the trailing "\r\n"
